@@ -552,112 +552,6 @@ func c18BodilessGen(g *hx.Gen) {
 	}
 }
 
-// ---- c18.sniff: does enabling gzip change the Content-Type the client sees? ----
-//
-// c18.sniff  blocks  ae  chunks            chunks = comma list of hex pieces the handler writes, one Write each,
-//                                          WITHOUT setting Content-Type (both sides then sniff it)
-//   out = <ce with gzip> <same | differs:<hex status+ct with gzip>|<… without>> <body same|differs>
-//   chunks may also contain F (Flush) and H<code> (WriteHeader)
-// Real net/http server connection; the handler's output is identical in both executions.
-
-func c18SniffEval(f []string) (string, []string) {
-	if len(f) != 3 {
-		return "bad-case", nil
-	}
-	mids, err := c18Middleware(f[0])
-	if err != nil {
-		return "setup-error:" + err.Error(), nil
-	}
-	ae := hx.UnHS(f[1])
-	var chunks []string
-	if f[2] != "" {
-		chunks = strings.Split(f[2], ",")
-	}
-	inner := httpserver.HandlerFunc(func(w http.ResponseWriter, r *http.Request) (int, error) {
-		for _, c := range chunks {
-			switch {
-			case c == "F":
-				w.(http.Flusher).Flush()
-			case strings.HasPrefix(c, "H"):
-				code, _ := strconv.Atoi(c[1:])
-				w.WriteHeader(code)
-			default:
-				w.Write(hx.UnH(c))
-			}
-		}
-		return 0, nil
-	})
-	run := func(m []httpserver.Middleware) (string, string, string) {
-		h := httpserver.Handler(inner)
-		for i := len(m) - 1; i >= 0; i-- {
-			h = m[i](h)
-		}
-		srv := httptest.NewServer(http.HandlerFunc(func(w http.ResponseWriter, r *http.Request) { h.ServeHTTP(w, r) }))
-		defer srv.Close()
-		req, _ := http.NewRequest("GET", srv.URL+"/page", nil)
-		if ae != "" {
-			req.Header.Set("Accept-Encoding", ae)
-		}
-		tr := &http.Transport{DisableCompression: true}
-		defer tr.CloseIdleConnections()
-		res, err := tr.RoundTrip(req)
-		if err != nil {
-			return "X", "X-roundtrip-error", ""
-		}
-		body, _ := io.ReadAll(res.Body)
-		res.Body.Close()
-		ce := res.Header.Get("Content-Encoding")
-		if ce == "gzip" {
-			if zr, err := stdgzip.NewReader(bytes.NewReader(body)); err == nil {
-				body, _ = io.ReadAll(zr)
-			}
-		}
-		if ce == "" {
-			ce = "-"
-		}
-		return ce, fmt.Sprintf("%d %s", res.StatusCode, res.Header.Get("Content-Type")), string(body)
-	}
-	gce, gct, gbody := run(mids)
-	_, pct, pbody := run(nil)
-	ct := "same"
-	if gct != pct {
-		ct = "differs:" + hx.HS(gct) + "|" + hx.HS(pct)
-	}
-	body := "same"
-	if gbody != pbody {
-		body = "differs"
-	}
-	return gce + " " + ct + " " + body, []string{"ct-" + ct[:4], "ce=" + gce}
-}
-
-func c18SniffGen(g *hx.Gen) {
-	html := "<html><head><title>t</title></head><body>hello</body></html>"
-	bodies := [][]string{
-		{html}, {"<ht", "ml><body>x</body></html>"}, {"", html}, {"<", "html>", "<body>"}, {"plain text only"}, {"pla", "in text"},
-		{"%PDF-", "1.4 fake"}, {"%PDF-1.4 fake"}, {"{\"a\":", "1}"}, {"\x89PNG\r\n\x1a\n", "rest"}, {"\x89P", "NG\r\n\x1a\nrest"},
-		{strings.Repeat("a", 600), "<html>"}, {"GIF8", "9a......"},
-		// Flush (F) and an explicit status (H<code>) between the pieces
-		{"<ht", "F", "ml><body>x</body></html>"}, {"F", html}, {"H404", "<html>", "<body>not here</body>"}, {"H200", "F", html},
-		{"<html>", strings.Repeat("b", 700), "F", "tail"}, {strings.Repeat("c", 300), strings.Repeat("d", 300), "<p>"}, {"H201"}, {},
-		{strings.Repeat("e", 3000)}, {"x", "F", "F", "y"},
-	}
-	for _, b := range bodies {
-		var hs []string
-		for _, c := range b {
-			if c == "F" || (strings.HasPrefix(c, "H") && len(c) == 4 && c[1] >= '1' && c[1] <= '5') {
-				hs = append(hs, c)
-				continue
-			}
-			hs = append(hs, hx.HS(c))
-		}
-		for _, ae := range []string{"gzip", ""} {
-			for _, bl := range []string{c18Blocks[0], c18Blocks[2]} {
-				g.Case(bl, hx.HS(ae), strings.Join(hs, ","))
-			}
-		}
-	}
-}
-
 var c18LiveOps = []string{"w", "c", "s", "c,w", "c,f", "c,f,c", "w,c", "h200,c", "h200,c,w", "f,c", "c,c,c", "s,w", "s,f,s", "w,f,w", "h404,c,f", "c,h500,w", "f,w", "h201,w,s,c",
 	"h103,w", "h103,h200,w", "h103,h404,w", "h103,c,w", "h103,h204"} // 103 Early Hints: informational, the response header proper follows
 
@@ -1047,7 +941,6 @@ func c18RangeGen(g *hx.Gen) {
 
 func init() {
 	hx.Register(&hx.Stream{ID: "C18", Name: "c18.range", Gen: c18RangeGen, Eval: c18RangeEval, Setup: c18StaticSetup, Teardown: c18StaticTeardown})
-	hx.Register(&hx.Stream{ID: "C18", Name: "c18.sniff", Gen: c18SniffGen, Eval: c18SniffEval})
 	hx.Register(&hx.Stream{ID: "C18", Name: "c18.bodiless", Gen: c18BodilessGen, Eval: c18BodilessEval})
 	hx.Register(&hx.Stream{ID: "C18", Name: "c18.live", Gen: c18LiveGen, Eval: c18LiveEval})
 	hx.Register(&hx.Stream{ID: "C18", Name: "c18.wrap", Gen: c18WrapGen, Eval: c18WrapEval})
